@@ -236,6 +236,9 @@ type Interp struct {
 	collect bool
 	// OnCall observes every call whose callee is known, with argument values.
 	OnCall func(call *ssa.Call, callee *ssa.Function, args []Val, fr *frame)
+	// OnAppend observes every append (final pass only): the call, the appended
+	// slice value and, when its length is known, its elements.
+	OnAppend func(call *ssa.Call, appended Val, elems []Val, fr *frame)
 	// CutSink receives every integer constant a subject-derived value is compared with.
 	CutSink func(c *big.Int)
 	Sizes   types.Sizes
@@ -596,7 +599,12 @@ func (fr *frame) eval1(v ssa.Value) Val {
 		return Val{K: KSlice, S: allocName(x), Len: l}
 	case *ssa.MakeMap:
 		return Val{K: KPtr, S: allocName(x)}
-	case *ssa.MakeChan, *ssa.MakeClosure:
+	case *ssa.MakeClosure:
+		if f, ok := x.Fn.(*ssa.Function); ok {
+			return Val{K: KFunc, Fn: f}
+		}
+		return top
+	case *ssa.MakeChan:
 		return top
 	case *ssa.FieldAddr:
 		base := fr.eval(x.X)
@@ -1467,6 +1475,19 @@ func (fr *frame) builtin(name string, c *ssa.Call, args []Val) Val {
 			return Val{K: KSlice, S: allocName(c), Len: -1}
 		}
 		a0, a1 := args[0], args[1]
+		if fr.in.OnAppend != nil && fr.in.collect {
+			var elems []Val
+			if a1.K == KSlice && a1.Len >= 0 && a1.Len <= 64 {
+				et := types.Type(types.Typ[types.Invalid])
+				if st, ok := c.Type().Underlying().(*types.Slice); ok {
+					et = st.Elem()
+				}
+				for i := 0; i < a1.Len; i++ {
+					elems = append(elems, fr.load(fmt.Sprintf("%s[%d]", a1.S, a1.Off+i), et))
+				}
+			}
+			fr.in.OnAppend(c, a1, elems, fr)
+		}
 		base := a0.S
 		if a0.K != KSlice || !strings.Contains(a0.S, "#") {
 			base = allocName(c)
